@@ -1871,16 +1871,34 @@ theorem prepareK_inv (key : String → String → κ) (build : String → String
     | nil => exact h
     | cons o os ih2 => exact ih2 _ (addOne_inv key build v.name t o h)
 
+theorem TInv_nil (key : String → String → κ) (build : String → String → V) : TInv key build [] := by
+  intro k x h; simp at h
+
+theorem TInv_cons (key : String → String → κ) (build : String → String → V) (v o : String) (t : List (κ × V))
+    (h : TInv key build t) : TInv key build ((key v o, build v o) :: t) := by
+  intro k x hk
+  rw [List.lookup_cons] at hk
+  split at hk
+  · rename_i heq
+    have : k = key v o := by simpa using heq
+    subst this
+    simp only [Option.some.injEq] at hk
+    exact ⟨v, o, rfl, hk.symm⟩
+  · exact h k x hk
+
 /-- **A faithful table key.**  If the key of the table determines the (variable, operator) pair up to
-what `build` distinguishes, then for EVERY list of variables in EVERY order the expression of every
-variable finds, under every operator name it uses, the operator built for this variable and operator. -/
+what `build` distinguishes, then for EVERY list of variables in EVERY order, starting from any table whose
+entries are of that form (`init`: the general operators `dot`, `inner`, `outer`, `integral`, whose
+implementation is the same for every variable), the expression of every variable finds, under every
+operator name it uses, the operator built for this variable and operator. -/
 theorem served_of_faithful_key (key : String → String → κ) (build : String → String → V)
     (faithful : ∀ v o v' o', key v o = key v' o' → build v o = build v' o')
+    (init : List (κ × V)) (hinit : TInv key build init)
     (vars : List VarSpec) (v : VarSpec) (o : String) (hv : v ∈ vars) (ho : o ∈ v.ops) :
-    servedK key build [] vars v.name o = some (build v.name o) := by
+    servedK key build init vars v.name o = some (build v.name o) := by
   unfold servedK
-  obtain ⟨x, hx⟩ := prepareK_present key build vars [] v o hv ho
-  obtain ⟨v', o', hk, rfl⟩ := prepareK_inv key build vars [] (by intro k x h; simp at h) _ _ hx
+  obtain ⟨x, hx⟩ := prepareK_present key build vars init v o hv ho
+  obtain ⟨v', o', hk, rfl⟩ := prepareK_inv key build vars init hinit _ _ hx
   rw [hx, faithful _ _ _ _ hk]
 
 end OpTable
@@ -1891,7 +1909,7 @@ serves every variable the operator built for it (with the boundary condition sel
 theorem pde_operator_table_faithful {V : Type} (build : String → String → V) (vars : List VarSpec)
     (v : VarSpec) (o : String) (hv : v ∈ vars) (ho : o ∈ v.ops) :
     servedK TableKey.perVar.key build [] vars v.name o = some (build v.name o) := by
-  apply served_of_faithful_key _ _ _ vars v o hv ho
+  apply served_of_faithful_key _ _ _ [] (TInv_nil _ _) vars v o hv ho
   intro a b a' b' h
   simp only [TableKey.key, Prod.mk.injEq] at h
   rw [h.1, h.2]
@@ -1958,6 +1976,18 @@ theorem pde_shared_operator_table_unsound :
     servedBC .perVar bcs [u, v] "v" "laplace" = some (some 1) ∧ servedBC .perVar bcs [v, u] "u" "laplace" = some (some 0) ∧
     bcsUsed .perVar bcs [u, v] = [1, 0] ∧ bcsUsed .perVar bcs [v, u] = [0, 1] := by
   decide +kernel
+
+/-- the hypotheses of `served_of_faithful_key` hold for a table that starts with the general operators (`dot`: the same
+implementation in the copy of every variable) -/
+example : let build : String → String → String := fun v o => if o = "dot" then "DOT" else v ++ ":" ++ o
+    TInv TableKey.perVar.key build [(("u", "dot"), "DOT"), (("v", "dot"), "DOT")] ∧
+    servedK TableKey.perVar.key build [(("u", "dot"), "DOT"), (("v", "dot"), "DOT")]
+      [⟨"u", ["dot", "laplace"]⟩, ⟨"v", ["laplace", "dot"]⟩] "v" "laplace" = some "v:laplace" ∧
+    servedK TableKey.perVar.key build [(("u", "dot"), "DOT"), (("v", "dot"), "DOT")]
+      [⟨"u", ["dot", "laplace"]⟩, ⟨"v", ["laplace", "dot"]⟩] "v" "dot" = some "DOT" := by
+  intro build
+  refine ⟨?_, by decide +kernel, by decide +kernel⟩
+  exact TInv_cons TableKey.perVar.key build "u" "dot" _ (TInv_cons TableKey.perVar.key build "v" "dot" _ (TInv_nil _ _))
 
 /-- the hypotheses of `pde_operator_table_faithful` are satisfiable with operators shared between variables -/
 example : let vars : List VarSpec := [⟨"u", ["laplace", "gradient_squared"]⟩, ⟨"v", ["laplace"]⟩, ⟨"w", ["laplace", "laplace"]⟩]
